@@ -16,7 +16,9 @@ from __future__ import annotations
 
 import functools
 import itertools
+import logging
 
+from antismash.common.secmet.features import Region
 from antismash.common.secmet.record import Record
 
 from vf import core, findings, instrument
@@ -57,7 +59,8 @@ REQUIRED = ["op:invariant", "op:components", "op:membership", "op:region-locatio
             "hist:cds-added-after-regions", "hist:create-regions-from-handed-areas", "hist-op:add_protocluster", "hist-op:add_subregion",
             "hist-op:add_cds_feature", "hist-op:create_candidate_clusters", "hist-op:create_regions",
             "hist-op:clear_regions", "hist-op:clear_candidate_clusters", "hist-op:clear_protoclusters",
-            "hist-op:clear_subregions", "hist-op:strip_antismash_annotations",
+            "hist-op:clear_subregions", "hist-op:strip_antismash_annotations", "hist-op:add_region",
+            "add_region:overlapping-a-region", "add_region:clear-of-all-regions",
             "monitor:Record.add_region", "monitor:Record.add_candidate_cluster", "monitor:Record.create_regions"]
 
 MUTATORS = ("add_protocluster", "add_candidate_cluster", "add_subregion", "add_region", "add_cds_feature",
@@ -313,6 +316,7 @@ def install(ctx) -> None:
     global _INSTALLED
     if _INSTALLED:
         return
+    logging.disable(logging.CRITICAL)       # add_region logs every refusal
     for name in MUTATORS:
         _wrap(ctx, name)
     _INSTALLED = True
@@ -579,6 +583,30 @@ def run_history(ctx, case) -> None:
             elif name in ("add_subregion", "create_candidate_clusters") and had_regions \
                     and len(current_areas(record)) > len(areas_before):
                 ctx.count("hist:area-added-after-regions")
+                if name == "add_subregion" and (len(sess.done) + op[1]) % 2 == 0:
+                    # the caller makes a region of the new subregion itself: add_region takes it when it shares no
+                    # base with a region of the record and refuses it otherwise (the monitor on add_region judges
+                    # the record afterwards, whatever was decided)
+                    new_ivs = M.normalise(M.intervals_of(obj.location))
+                    clash = any(M.share_a_base(new_ivs, M.normalise(M.intervals_of(r.location))) for r in record.get_regions())
+                    ctx.count("hist-op:add_region")
+                    ctx.count("add_region:overlapping-a-region" if clash else "add_region:clear-of-all-regions")
+                    sess.current_op = "add_region"
+                    try:
+                        record.add_region(Region(candidate_clusters=[], subregions=[obj]))
+                        refused = False
+                    except ValueError:
+                        refused = True
+                    sess.current_op = None
+                    if refused != clash:
+                        ctx.violate("add-region-refuses-exactly-overlapping-regions",
+                                    sess.facts(op="add_region", new=_s(obj.location), overlaps_existing=clash, refused=refused,
+                                               new_crosses_origin=len(new_ivs) > 1 or len(obj.location.parts) > 1,
+                                               regions=[_s(r.location) for r in record.get_regions()]), case)
+                        if not refused:
+                            break       # the record holds overlapping regions now: nothing further can be judged
+                    if refused and obj.parent is not None:
+                        obj.parent = None       # the refused region object is the caller's to discard
             if name == "create_candidate_clusters" and cleared_since_create:
                 ctx.count("hist:clear-then-create")
                 nontrivial = True
